@@ -9,6 +9,7 @@ use truc::record::type_resolver::{HostTypeResolver, TypeResolver};
 
 include!("types_quick.rs");
 include!("types_extra.rs");
+include!("types_spellings.rs");
 #[cfg(feature = "thorough")]
 include!("types_thorough.rs");
 
@@ -23,6 +24,7 @@ fn main() {
         let mut v = Vec::new();
         quick_all(&mut v);
         extra_chunk(&mut v);
+        spelling_chunk(&mut v);
         #[cfg(feature = "thorough")]
         thorough_all(&mut v);
         v
